@@ -4,7 +4,7 @@
    Nothing new is modelled here: this is a corollary of CodesTheorems.roundtrip and
    ZigZagProofs.inverse_l/to_nat_range. *)
 From Coq Require Import List NArith ZArith Lia.
-From DSI Require Import Base Prog Codes BitFacts CodesProofs Run CodesSummary CodesTheorems Small ZigZagProofs CodeDefs VByteProofs.
+From DSI Require Import Base Prog Codes BitFacts CodesProofs Run CodesSummary CodesTheorems Small ZigZagProofs CodeDefs VByteProofs LenProofs.
 Open Scope N_scope.
 
 Definition nat_of_signed (y : Z) : N := Z.to_N (to_nat 64 y).
@@ -78,4 +78,22 @@ Proof.
   split.
   - exists b1. split; [exact E1|]. exists (nat_of_signed y). split; [exact R1 | apply signed_nat_inverse; exact Hy].
   - exists b2. split; [exact E2|]. exists (nat_of_signed y). split; [exact R2 | apply signed_nat_inverse; exact Hy].
+Qed.
+
+(* the map is monotone in |y|: a signed value of smaller magnitude never gets a longer codeword (C17 with C20) *)
+Lemma nat_of_signed_abs_le y1 y2 : (- 2 ^ 63 <= y1 < 2 ^ 63)%Z -> (- 2 ^ 63 <= y2 < 2 ^ 63)%Z ->
+  (Z.abs y1 < Z.abs y2)%Z -> nat_of_signed y1 <= nat_of_signed y2.
+Proof.
+  intros H1 H2 Ha. unfold nat_of_signed.
+  rewrite (ZigZagProofs.to_nat_formula 64 y1), (ZigZagProofs.to_nat_formula 64 y2) by lia.
+  apply Z2N.inj_le; destruct (Z.leb_spec 0 y1), (Z.leb_spec 0 y2); lia.
+Qed.
+
+Theorem signed_len_monotone : forall E id p y1 y2,
+  (- 2 ^ 63 <= y1 < 2 ^ 63)%Z -> (- 2 ^ 63 <= y2 < 2 ^ 63)%Z -> (Z.abs y1 < Z.abs y2)%Z ->
+  valid id p (nat_of_signed y1) -> valid id p (nat_of_signed y2) ->
+  LEN (code_cw E id p (nat_of_signed y1)) <= LEN (code_cw E id p (nat_of_signed y2)).
+Proof.
+  intros E id p y1 y2 H1 H2 Ha V1 V2.
+  apply LenProofs.code_len_monotone; [exact V1 | exact V2 | apply nat_of_signed_abs_le; assumption].
 Qed.
